@@ -442,6 +442,15 @@ fn reach_wanted(id: &str) -> &'static [&'static str] {
 }
 
 fn rule_text(id: &str) -> String {
+    if id == "C15" {
+        return "cases = fault placements: for EVERY transaction of the explored histories that succeeds on a fork and dispatches at least \
+one outgoing message (or issues a cross-contract query), EVERY message position i (any depth, depth-first order) and every query position j is \
+failed in turn on a fresh fork — exhaustive within each operation, while the operations themselves come from seeded histories; each case checks: \
+the faulted operation returns an error, the state hash is unchanged, and a retry on the same fork succeeds and reaches exactly the state of the \
+un-faulted execution. A case is distinct and non-trivial when its tuple (fault kind, operation kind, class of the failed message [bank send, \
+CW20 transfer, NFT transfer, royalty bank send, royalty CW20 transfer, community-pool deposit, CW20 hook, CW721 hook], outcome, position \
+first/middle/last, number of dispatches bucketed, depth) has not been seen before — counted with a hash set".to_string();
+    }
     let base = "cases = oracle evaluations: every executed transaction whose message kind is relevant to this property \
 (judged after the step against the reference model re-seeded from the observed real pre-state, plus the cross-invariants \
 and history monitors) and every fork-probe case; a case is distinct and non-trivial when its tuple (message kind or probe case kind, deposit path, \
